@@ -57,6 +57,8 @@ const MEDIA: &[&str] = &["", "screen", "(w:1px)", "screen and (w:75rpx)", "all a
 /// layer conditions: none, a plain name, a dotted name, the bare keyword
 /// supports() conditions: none, a declaration, a negation, a conjunction, a selector() test with a class and an rpx length
 const SUPPORTS: &[&str] = &["", "d:v", "not (d:v)", "(a:b) and (c:1rpx)", "selector(.s > t)"];
+/// spelling of the two condition functions (function names are ASCII case-insensitive)
+const FN_CASE: &[(&str, &str)] = &[("layer", "supports"), ("LAYER", "Supports")];
 const LAYERS: &[(&str, &str)] = &[("", ""), (" layer(x)", "x"), (" layer(a.b.c)", "a.b.c"), (" layer", "")];
 const POSITIONS: &[(&str, &str)] = &[
     ("first", ""),
@@ -107,9 +109,13 @@ fn make_case(path: &str, form: Form, layer: usize, supports: usize, media: usize
     t.push_str(POSITIONS[pos].1);
     t.push_str("@import ");
     t.push_str(&spell(path, form));
-    t.push_str(LAYERS[layer].0);
+    // half of the spellings write the condition functions in upper / mixed case
+    let names = FN_CASE[if matches!(form, Form::Sq | Form::UrlDq) { 1 } else { 0 }];
+    t.push_str(&LAYERS[layer].0.replace("layer", names.0));
     if supports != 0 {
-        t.push_str(" supports(");
+        t.push_str(" ");
+        t.push_str(names.1);
+        t.push_str("(");
         t.push_str(SUPPORTS[supports]);
         t.push(')');
     }
@@ -169,13 +175,13 @@ fn check(c: &Case) -> Result<Option<Vec<(String, String)>>, String> {
         }
         let mut closers = 0;
         if c.layer != 0 {
-            exp.push(T::AtKw("layer".into()));
+            exp.push(T::AtKw(FN_CASE[if matches!(c.form, Form::Sq | Form::UrlDq) { 1 } else { 0 }].0.into()));
             exp.extend(passthrough(LAYERS[c.layer].1, &opts));
             exp.push(T::OpenCurly);
             closers += 1;
         }
         if c.supports != 0 {
-            exp.push(T::AtKw("supports".into()));
+            exp.push(T::AtKw(FN_CASE[if matches!(c.form, Form::Sq | Form::UrlDq) { 1 } else { 0 }].1.into()));
             exp.push(T::OpenParen);
             exp.extend(passthrough(SUPPORTS[c.supports], &opts));
             exp.push(T::CloseParen);
